@@ -2379,7 +2379,17 @@ class Kconfig(object):
         # A separate helper function is neater than complicating write_config()
         # by passing a flag to it, plus we only need to look at symbols here.
 
-        self._write_if_changed(os.path.join(path, "auto.conf"), self._old_vals_contents())
+        # auto.conf is what the next sync_deps() compares against. If it were truncated and rewritten in place,
+        # a run interrupted right here would leave it empty or partial and the next run would no longer see
+        # the options that changed to n since the last completed run. Write a temporary file and move it over.
+        filename = os.path.join(path, "auto.conf")
+        contents = self._old_vals_contents()
+        if self._contents_eq(filename, contents):
+            return
+        tmp_filename = filename + ".tmp"
+        with open(tmp_filename, "w", encoding=self._encoding) as f:
+            f.write(contents)
+        os.replace(tmp_filename, filename)
 
     def _old_vals_contents(self):
         # _write_old_vals() helper. Returns the contents to write as a string.
